@@ -44,6 +44,25 @@ enum Op {
     Write(Vec<u8>),
     Flush,
 }
+/// a read / write through the trait's PROVIDED vectored entry point with a single slice: with the default implementations
+/// this is exactly `read(d)` / `write(d)`; an override of `read_vectored` / `write_vectored` shows here
+thread_local! { static VECT: std::cell::Cell<bool> = std::cell::Cell::new(false); }
+fn do_read<R: Read>(r: &mut R, d: &mut [u8], vect: bool) -> std::io::Result<usize> {
+    if vect {
+        let mut sl = [std::io::IoSliceMut::new(d)];
+        r.read_vectored(&mut sl)
+    } else {
+        r.read(d)
+    }
+}
+fn do_write<W: Write>(w: &mut W, d: &[u8], vect: bool) -> std::io::Result<usize> {
+    if vect {
+        w.write_vectored(&[std::io::IoSlice::new(d)])
+    } else {
+        w.write(d)
+    }
+}
+
 fn parse_ops(c: &mut Cur) -> Vec<Op> {
     let mut v = Vec::new();
     while !c.done() {
@@ -67,10 +86,13 @@ pub fn run_chain(c: &mut Cur, out: &mut Vec<i128>) {
     let sc2 = c.take_script();
     let ws = c.take_wscript();
     let ops = parse_ops(c);
-    if variant == 2 {
+    if variant == 2 || variant == 3 {
+        // 3 = as 2, with every read / write going through the single-slice vectored entry point
+        VECT.with(|v| v.set(variant == 3));
         chain_variant(0, s1.clone(), sc1.clone(), s2.clone(), sc2.clone(), ws.clone(), &ops, out);
         out.push(-8);
         chain_variant(1, s1, sc1, s2, sc2, ws, &ops, out);
+        VECT.with(|v| v.set(false));
     } else {
         chain_variant(variant, s1, sc1, s2, sc2, ws, &ops, out);
     }
@@ -119,7 +141,7 @@ fn chain_variant(variant: u64, s1: Vec<u8>, sc1: std::collections::VecDeque<(u64
             match op {
                 Op::Read(k) => {
                     let mut d = vec![0xDDu8; *k];
-                    let r = std::panic::catch_unwind(std::panic::AssertUnwindSafe(|| lib(|| chain.read(&mut d))));
+                    let r = std::panic::catch_unwind(std::panic::AssertUnwindSafe(|| lib(|| do_read(&mut chain, &mut d, VECT.with(|v| v.get())))));
                     match r {
                         Ok(q) => {
                             enc_io_usize(out, &q);
@@ -129,7 +151,7 @@ fn chain_variant(variant: u64, s1: Vec<u8>, sc1: std::collections::VecDeque<(u64
                     }
                 }
                 Op::Write(data) => {
-                    let r = std::panic::catch_unwind(std::panic::AssertUnwindSafe(|| lib(|| chain.write(data))));
+                    let r = std::panic::catch_unwind(std::panic::AssertUnwindSafe(|| lib(|| do_write(&mut chain, data, VECT.with(|v| v.get())))));
                     match r {
                         Ok(q) => enc_io_usize(out, &q),
                         Err(_) => out.push(PANIC),
@@ -155,7 +177,7 @@ fn chain_variant(variant: u64, s1: Vec<u8>, sc1: std::collections::VecDeque<(u64
             out.push(MOP);
             {
                 let mut d = vec![0xDDu8; *k];
-                let r = std::panic::catch_unwind(std::panic::AssertUnwindSafe(|| lib(|| chain.read(&mut d))));
+                let r = std::panic::catch_unwind(std::panic::AssertUnwindSafe(|| lib(|| do_read(&mut chain, &mut d, VECT.with(|v| v.get())))));
                 match r {
                     Ok(q) => {
                         enc_io_usize(out, &q);
@@ -178,10 +200,12 @@ pub fn run_take(c: &mut Cur, out: &mut Vec<i128>) {
     let sc2 = c.take_script();
     let ws = c.take_wscript();
     let ops = parse_ops(c);
-    if variant == 2 {
+    if variant == 2 || variant == 3 {
+        VECT.with(|v| v.set(variant == 3));
         take_variant(0, limit, s2.clone(), sc2.clone(), ws.clone(), &ops, out);
         out.push(-8);
         take_variant(1, limit, s2, sc2, ws, &ops, out);
+        VECT.with(|v| v.set(false));
     } else {
         take_variant(variant, limit, s2, sc2, ws, &ops, out);
     }
@@ -217,7 +241,7 @@ fn take_variant(variant: u64, limit: u64, s2: Vec<u8>, sc2: std::collections::Ve
             match op {
                 Op::Read(k) => {
                     let mut d = vec![0xDDu8; *k];
-                    let r = std::panic::catch_unwind(std::panic::AssertUnwindSafe(|| lib(|| take.read(&mut d))));
+                    let r = std::panic::catch_unwind(std::panic::AssertUnwindSafe(|| lib(|| do_read(&mut take, &mut d, VECT.with(|v| v.get())))));
                     match r {
                         Ok(q) => {
                             enc_io_usize(out, &q);
@@ -227,7 +251,7 @@ fn take_variant(variant: u64, limit: u64, s2: Vec<u8>, sc2: std::collections::Ve
                     }
                 }
                 Op::Write(data) => {
-                    let r = std::panic::catch_unwind(std::panic::AssertUnwindSafe(|| lib(|| take.write(data))));
+                    let r = std::panic::catch_unwind(std::panic::AssertUnwindSafe(|| lib(|| do_write(&mut take, data, VECT.with(|v| v.get())))));
                     match r {
                         Ok(q) => enc_io_usize(out, &q),
                         Err(_) => out.push(PANIC),
@@ -252,7 +276,7 @@ fn take_variant(variant: u64, limit: u64, s2: Vec<u8>, sc2: std::collections::Ve
             out.push(MOP);
             {
                 let mut d = vec![0xDDu8; *k];
-                let r = std::panic::catch_unwind(std::panic::AssertUnwindSafe(|| lib(|| take.read(&mut d))));
+                let r = std::panic::catch_unwind(std::panic::AssertUnwindSafe(|| lib(|| do_read(&mut take, &mut d, VECT.with(|v| v.get())))));
                 match r {
                     Ok(q) => {
                         enc_io_usize(out, &q);
